@@ -390,15 +390,24 @@ package service
 //@     && (e != nil ==> listElemWF(e) && ptr(e.owner, "*list.List") == cl.list) \
 //@     && 0 <= i && i <= ite(e != nil, e.pos, cl.list.n) && i == uf_cntM_int(cl.list, clientIP, ite(e != nil, e.pos, cl.list.n)) \
 //@     && (forall j int :: 0 <= j && j < i ==> validElem(cipherArray[j])) \
-//@     && (forall j int :: 0 <= j && j <= ite(e != nil, e.pos, cl.list.n) ==> uf_cntM_int(cl.list, clientIP, ite(e != nil, e.pos, cl.list.n)) <= uf_cntM_int(cl.list, clientIP, j) + ite(e != nil, e.pos, cl.list.n) - j)
+//@     && (forall j int :: 0 <= j && j <= ite(e != nil, e.pos, cl.list.n) ==> uf_cntM_int(cl.list, clientIP, ite(e != nil, e.pos, cl.list.n)) <= uf_cntM_int(cl.list, clientIP, j) + ite(e != nil, e.pos, cl.list.n) - j) \
+//@     && (forall j int :: 0 <= j && j <= ite(e != nil, e.pos, cl.list.n) ==> uf_cntM_int(cl.list, clientIP, j) <= uf_cntM_int(cl.list, clientIP, ite(e != nil, e.pos, cl.list.n))) \
+//@     && (forall k int :: 0 <= k && k < ite(e != nil, e.pos, cl.list.n) && matches(ptr(cl.list.at[k], "*list.Element"), clientIP) ==> cipherArray[uf_cntM_int(cl.list, clientIP, k)] == ptr(cl.list.at[k], "*list.Element"))
 //@   loop 2 invariant len(cipherArray) == atlock(cl.list.n) && cl.list == atlock(cl.list) && keyListOK(cl.list) \
 //@     && (e != nil ==> listElemWF(e) && ptr(e.owner, "*list.List") == cl.list) \
 //@     && i == uf_cntM_int(cl.list, clientIP, cl.list.n) + ite(e != nil, e.pos, cl.list.n) - uf_cntM_int(cl.list, clientIP, ite(e != nil, e.pos, cl.list.n)) \
 //@     && 0 <= i \
 //@     && (forall j int :: 0 <= j && j < i ==> validElem(cipherArray[j])) \
-//@     && (forall j int :: 0 <= j && j <= cl.list.n ==> uf_cntM_int(cl.list, clientIP, cl.list.n) <= uf_cntM_int(cl.list, clientIP, j) + cl.list.n - j)
+//@     && (forall j int :: 0 <= j && j <= cl.list.n ==> uf_cntM_int(cl.list, clientIP, cl.list.n) <= uf_cntM_int(cl.list, clientIP, j) + cl.list.n - j) \
+//@     && (forall j int :: 0 <= j && j <= cl.list.n ==> uf_cntM_int(cl.list, clientIP, j) <= uf_cntM_int(cl.list, clientIP, cl.list.n)) \
+//@     && (forall j int :: 0 <= j && j <= ite(e != nil, e.pos, cl.list.n) ==> j - uf_cntM_int(cl.list, clientIP, j) <= ite(e != nil, e.pos, cl.list.n) - uf_cntM_int(cl.list, clientIP, ite(e != nil, e.pos, cl.list.n))) \
+//@     && (forall k int :: 0 <= k && k < cl.list.n && matches(ptr(cl.list.at[k], "*list.Element"), clientIP) ==> cipherArray[uf_cntM_int(cl.list, clientIP, k)] == ptr(cl.list.at[k], "*list.Element")) \
+//@     && (forall k int :: 0 <= k && k < ite(e != nil, e.pos, cl.list.n) && !matches(ptr(cl.list.at[k], "*list.Element"), clientIP) ==> cipherArray[uf_cntM_int(cl.list, clientIP, cl.list.n) + k - uf_cntM_int(cl.list, clientIP, k)] == ptr(cl.list.at[k], "*list.Element"))
 //@   ensures[C01,C09,snapshot-has-every-slot-filled] forall i int :: 0 <= i && i < len(result) ==> validElem(result[i])
 //@   ensures[C01,C09,snapshot-size] len(result) == atlock(cl.list.n)
+//@   ensures[C01,C09,every-key-of-the-list-is-in-the-snapshot-matching-first-then-recency-order] forall k int :: 0 <= k && k < atlock(cl.list.n) ==> \
+//@        (atlock(matches(ptr(cl.list.at[k], "*list.Element"), clientIP)) ==> result[atlock(uf_cntM_int(cl.list, clientIP, k))] == atlock(ptr(cl.list.at[k], "*list.Element"))) \
+//@     && (!atlock(matches(ptr(cl.list.at[k], "*list.Element"), clientIP)) ==> result[atlock(uf_cntM_int(cl.list, clientIP, cl.list.n)) + k - atlock(uf_cntM_int(cl.list, clientIP, k))] == atlock(ptr(cl.list.at[k], "*list.Element")))
 
 //@ func (*cipherList).MarkUsedByClientIP
 //@   props C01 C18 C19
